@@ -75,7 +75,9 @@ int aggregate(ParCSRMatrix* A, ParCSRMatrix* S, std::vector<int>& states,
         if (S->on_proc->idx1[i+1] - S->on_proc->idx1[i] <= 1 
                    && S->off_proc->idx1[i+1] == S->off_proc->idx1[i])
         {
-            aggregates[i] = - A->partition->global_num_rows;
+            // isolated: a marker outside the range -1..-n used below to
+            // encode the aggregates assigned in the second pass
+            aggregates[i] = - A->partition->global_num_rows - 1;
         }
         else if (states[i] == Selected)
         {
@@ -138,7 +140,7 @@ int aggregate(ParCSRMatrix* A, ParCSRMatrix* S, std::vector<int>& states,
             end = S->on_proc->idx1[i+1];
             ctr = A->on_proc->idx1[i];
             max_val = 0.0;
-            max_agg = -A->partition->global_num_rows; 
+            max_agg = -1; 
             for (j = start; j < end; j++)
             {
                 col = S->on_proc->idx2[j];
@@ -169,13 +171,21 @@ int aggregate(ParCSRMatrix* A, ParCSRMatrix* S, std::vector<int>& states,
                 }
             }
 
-            aggregates[i] = - (max_agg + 1);
+            if (max_agg < 0)
+            {
+                // no aggregated neighbour: stays unaggregated
+                aggregates[i] = - A->partition->global_num_rows - 1;
+            }
+            else
+            {
+                aggregates[i] = - (max_agg + 1);
+            }
         }
     }
 
     for (int i = 0; i < S->local_num_rows; i++)
     {
-        if (aggregates[i] <= -A->partition->global_num_rows)
+        if (aggregates[i] < -A->partition->global_num_rows)
             aggregates[i] = -1;
         else if (aggregates[i] < 0)
             aggregates[i] = - (aggregates[i] + 1);
